@@ -15,7 +15,8 @@ Fetch  == IsEvent("Fetch")  /\ FetchOk(R.e, R.id, st) /\ st' = AfterFetch(R.e, R
 Tick   == IsEvent("Tick")   /\ TickOk(R.t, st) /\ UNCHANGED st
 Inject == IsEvent("Inject") /\ InjectOk(R.e, R.cls, R.viol, R.res, st) /\ st' = AfterInject(R.e, R.cls, R.viol, R.res, st)
 Panic  == IsEvent("Panic")  /\ PanicOk(R.e, st) /\ UNCHANGED st
-Next == Reset \/ Submit \/ Tx \/ Rx \/ Fetch \/ Tick \/ Inject \/ Panic
+End    == IsEvent("End")    /\ EndOk(st) /\ UNCHANGED st
+Next == Reset \/ Submit \/ Tx \/ Rx \/ Fetch \/ Tick \/ Inject \/ Panic \/ End
 Spec == Init /\ [][Next]_vars
 TraceAccepted ==
   LET d == TLCGet("stats").diameter IN
